@@ -82,6 +82,6 @@ def fill(P):
     P("C18", "exploration", "bounded check of the loaders on generated files (no contract within reach: the property is about pandas/csv behaviour)", B, "", "DESIGN.md 4-C18")
     P("C19", "other",
       "contract-based deductive verification of lp_dist (integer p: loop invariant over the p-th-power sum; 'inf': maximum as attained upper bound) and BallotGraph.fix_short_ballot + Lean 4/Mathlib lemma L19 (the p-norm of a difference is symmetric, zero iff equal, triangle inequality) + bounded comparison with the definition / ballot graph vs definition for n<=5",
-      "lp_dist is proved to return (sum |a_i-b_i|^p)^(1/p) resp. max |a_i-b_i| over the two columns of profiles_to_ndarrys([pp1, pp2]) for all profiles (floats read as reals, ** uninterpreted), ValueError exactly for an unsupported string / empty array; L19 proves the metric axioms of that formula for integer p >= 1; "
-      "fix_short_ballot is proved for every set enumeration order. profiles_to_ndarrys (numpy, dict union, sorted over tuples of frozensets), build_graph and from_profile (networkx) are outside the subset: assumed contract / bounded only; the metric axioms for 'inf' are bounded only.",
+      "lp_dist is proved to return (sum |a_i-b_i|^p)^(1/p) resp. max |a_i-b_i| over the two columns of profiles_to_ndarrys([pp1, pp2]) for all profiles (floats read as reals, ** uninterpreted), ValueError exactly for an unsupported string / empty array; L19 proves the metric axioms of both formulas (integer p >= 1 and the maximum); "
+      "fix_short_ballot is proved for every set enumeration order. profiles_to_ndarrys (numpy, dict union, sorted over tuples of frozensets), build_graph and from_profile (networkx) are outside the subset: assumed contract / bounded only.",
       "profiles_to_ndarrys is an assumed contract (opaque nd_cols; rectangular, one column per profile); A-FLOAT.", "DESIGN.md 4-C19, 8.3")
